@@ -97,15 +97,16 @@ DoIssue(s, who, sym, mu, scale, initial, max, mintable, fee) ==
                          !.supply = AddSupply(@, (mu :> amt)),
                          !.bal = Credit(@, who, (mu :> amt))])
 
-(* keeper.go EditToken.  The new maximum is compared with the issued amount
-   converted to main units by integer division (finding F5). *)
+(* keeper.go EditToken.  The new maximum, in minimum units, is compared with
+   the issued amount (fix of finding F5; before it the issued amount was first
+   converted to main units by integer division, so a fractional part slipped
+   under the new maximum). *)
 DoEdit(s, who, sym, max, mintable) ==
   IF sym \notin DOMAIN s.tok THEN FailW(s, "no_token")
   ELSE LET t == s.tok[sym] IN
   IF who # t.owner THEN FailW(s, "not_owner")
   ELSE
-    LET issuedMainUnitAmt == s.supply[t.minUnit] \div Pow10(t.scale) IN
-    IF max > 0 /\ max < issuedMainUnitAmt THEN FailW(s, "max_below_supply")
+    IF max > 0 /\ max * Pow10(t.scale) < s.supply[t.minUnit] THEN FailW(s, "max_below_supply")
     ELSE
       LET t2 == [t EXCEPT !.max = IF max > 0 THEN max ELSE @,
                           !.mintable = IF mintable = "" THEN @ ELSE mintable = "true"]
